@@ -21,10 +21,12 @@ func c17Nat(g *g17, count int) {
 			name := []string{"add", "sub", "mul"}[op/2]
 			need := map[string]int{"add": max(x.c, y.c) + 1, "sub": max(x.c, y.c), "mul": x.c + y.c}[name]
 			cp, cs := g.capArg(need)
-			al := g.r.IntN(3)
-			g.emit(fmt.Sprintf("n.%s a%d %s %s %s", name, al, x, y, cs), func() string {
+			al := g.r.IntN(4)
+			ro := g.reuseIf(al == 3)
+			al %= 3
+			g.emit(fmt.Sprintf("%s a%d %s %s %s", ro.op("n."+name), al, x, y, cs), func() string {
 				a, b := x.nat(), y.nat()
-				out := new(numct.Nat)
+				out := ro.nat(x.c + y.c)
 				if al == 1 {
 					out = a
 				} else if al == 2 {
@@ -72,10 +74,12 @@ func c17Nat(g *g17, count int) {
 				need = max(x.c-sh, 0)
 			}
 			cp, cs := g.capArg(need)
-			al := g.r.IntN(2)
-			g.emit(fmt.Sprintf("n.%s a%d %s %d %s", name, al, x, sh, cs), func() string {
+			al := g.r.IntN(3)
+			ro := g.reuseIf(al == 2)
+			al %= 2
+			g.emit(fmt.Sprintf("%s a%d %s %d %s", ro.op("n."+name), al, x, sh, cs), func() string {
 				a := x.nat()
-				out := new(numct.Nat)
+				out := ro.nat(x.c + sh)
 				if al == 1 {
 					out = a
 				}
@@ -112,10 +116,12 @@ func c17Nat(g *g17, count int) {
 				name = "n.divvt"
 			}
 			which := g.r.IntN(2) // Div vs EuclideanDiv are the same function for Nat
-			al := g.r.IntN(3)
-			g.emit(fmt.Sprintf("%s a%d %s %s", name, al, x, y), func() string {
+			al := g.r.IntN(4)
+			ro := g.reuseIf(al == 3)
+			al %= 3
+			g.emit(fmt.Sprintf("%s a%d %s %s", ro.op(name), al, x, y), func() string {
 				a, b := x.nat(), y.nat()
-				q, r := new(numct.Nat), new(numct.Nat)
+				q, r := ro.nat(x.c), ro.nat(y.c)
 				if al == 1 {
 					q = a
 				} else if al == 2 && !vt {
@@ -149,10 +155,12 @@ func c17Nat(g *g17, count int) {
 				x = g.cnatOf(new(big.Int).Mul(x.val(), f))
 				y = g.cnatOf(new(big.Int).Mul(y.val(), f))
 			}
-			al := g.r.IntN(3)
-			g.emit(fmt.Sprintf("n.gcd a%d %s %s", al, x, y), func() string {
+			al := g.r.IntN(4)
+			ro := g.reuseIf(al == 3)
+			al %= 3
+			g.emit(fmt.Sprintf("%s a%d %s %s", ro.op("n.gcd"), al, x, y), func() string {
 				a, b := x.nat(), y.nat()
-				out := new(numct.Nat)
+				out := ro.nat(max(x.c, y.c))
 				if al == 1 {
 					out = a
 				} else if al == 2 {
@@ -164,9 +172,10 @@ func c17Nat(g *g17, count int) {
 			})
 			g.emit(fmt.Sprintf("n.coprime %s %s", x, y), func() string { return b01(x.nat().Coprime(y.nat())) })
 			if op == 12 {
-				g.emit(fmt.Sprintf("n.lcm %s %s", x, y), func() string {
-					var out numct.Nat
-					numct.LCM(&out, x.nat(), y.nat())
+				rl := g.reuse()
+				g.emit(fmt.Sprintf("%s %s %s", rl.op("n.lcm"), x, y), func() string {
+					out := rl.nat(x.c + y.c)
+					numct.LCM(out, x.nat(), y.nat())
 					return out.Big().Text(16)
 				})
 			}
@@ -182,12 +191,17 @@ func c17Nat(g *g17, count int) {
 					}
 				}
 			}
-			g.emit(fmt.Sprintf("n.sqrt %s", x), func() string {
+			ro := g.reuse()
+			g.emit(fmt.Sprintf("%s %s", ro.op("n.sqrt"), x), func() string {
 				a := x.nat()
 				out := numct.NewNat(7)
+				if ro.on {
+					out = ro.nat(x.c)
+				}
+				before := out.Big()
 				ok := out.Sqrt(a)
 				if ok == ct.False {
-					if out.Uint64() != 7 {
+					if out.Big().Cmp(before) != 0 {
 						g.c.Violation("n.sqrt changed its output on failure " + x.String())
 					}
 					return "none"
@@ -246,13 +260,14 @@ func c17Nat(g *g17, count int) {
 			if len(bs) > 0 && g.r.IntN(3) == 0 {
 				bs[0] = 0
 			}
-			g.emit(fmt.Sprintf("n.frombytes %s", hexBytes(bs)), func() string {
-				var a numct.Nat
+			rb := g.reuse()
+			g.emit(fmt.Sprintf("%s %s", rb.op("n.frombytes"), hexBytes(bs)), func() string {
+				a := rb.nat(8 * len(bs))
 				if a.SetBytes(bs) != ct.True {
 					return "reject"
 				}
 				g.xc("n.frombytes", a.Big(), new(big.Int).SetBytes(bs))
-				return natS(&a)
+				return natS(a)
 			})
 		case 18, 19: // bitwise
 			x, y := g.cnat(), g.cnat()
@@ -262,10 +277,12 @@ func c17Nat(g *g17, count int) {
 				need = x.c
 			}
 			cp, cs := g.capArg(need)
-			al := g.r.IntN(3)
-			g.emit(fmt.Sprintf("n.%s a%d %s %s %s", name, al, x, y, cs), func() string {
+			al := g.r.IntN(4)
+			ro := g.reuseIf(al == 3)
+			al %= 3
+			g.emit(fmt.Sprintf("%s a%d %s %s %s", ro.op("n."+name), al, x, y, cs), func() string {
 				a, b := x.nat(), y.nat()
-				out := new(numct.Nat)
+				out := ro.nat(x.c + y.c)
 				if al == 1 {
 					out = a
 				} else if al == 2 {
@@ -320,9 +337,10 @@ func c17Nat(g *g17, count int) {
 		case 22: // Select / CondAssign
 			x, y := g.cnat(), g.cnat()
 			ch := g.r.IntN(2)
-			g.emit(fmt.Sprintf("n.select %d %s %s", ch, x, y), func() string {
+			ro := g.reuse()
+			g.emit(fmt.Sprintf("%s %d %s %s", ro.op("n.select"), ch, x, y), func() string {
 				a, b := x.nat(), y.nat()
-				var out numct.Nat
+				out := *ro.nat(max(x.c, y.c))
 				out.Select(ct.Choice(ch), a, b)
 				a.CondAssign(ct.Choice(ch), b)
 				if a.Big().Cmp(out.Big()) != 0 {
@@ -360,8 +378,9 @@ func c17Nat(g *g17, count int) {
 			})
 		case 25: // constants and Set/Clone/Lift/Abs
 			x := g.cint()
-			g.emit(fmt.Sprintf("n.abs %s", x), func() string {
-				var a numct.Nat
+			ro := g.reuse()
+			g.emit(fmt.Sprintf("%s %s", ro.op("n.abs"), x), func() string {
+				a := *ro.nat(x.c)
 				a.Abs(x.int())
 				cl := a.Clone()
 				var st numct.Nat
